@@ -325,7 +325,12 @@ fn enumerate_dbs(th: &Theory, fam: &Family, max_rows_per_rel: usize, cap: usize,
         let mut subsets: Vec<Vec<(Vec<u32>, bool)>> = vec![vec![]];
         // build by size
         let mut frontier: Vec<(usize, Vec<(Vec<u32>, bool)>)> = vec![(0, vec![])];
-        for _ in 0..max_rows_per_rel.min(all.len()) {
+        // wide relations: fewer rows per database, so that the number of labelled subsets stays bounded
+        // (C(|universe|, rows) * 2^rows <= 300 000)
+        let mut rows_here = max_rows_per_rel.min(all.len());
+        let count = |r: usize| -> f64 { let mut c = 1f64; for i in 0..r { c *= (all.len() - i) as f64 / (i + 1) as f64; } c * (1u64 << r) as f64 };
+        while rows_here > 1 && count(rows_here) > 300_000.0 { rows_here -= 1; }
+        for _ in 0..rows_here {
             let mut nf = Vec::new();
             for (start, s) in &frontier {
                 for i in *start..all.len() {
